@@ -1897,3 +1897,145 @@ theorem tallyCell_corr_bound (n : Nat) (rows : List (Nat × Rat)) (h : ∀ r ∈
     simp
 
 end CTM.Election
+namespace CTM.Election
+open CTM.Numeric
+
+/-! ### a child's aggregated votes = the iterations whose nearest leaf it owns -/
+
+theorem sum_ite_colsOf {α} [AddCommMonoid α] (types : List Nat) (l : Nat)
+    (hl : l < types.length) (a : α) (t : Nat) :
+    ((colsOf types t).map (fun i => if l = i then a else 0)).sum =
+      if types.getD l 0 = t then a else 0 := by
+  have : (fun i => if l = i then a else (0 : α)) = (fun i => if i = l then a else 0) := by
+    funext i; simp [eq_comm]
+  rw [this]
+  exact agg_unanimous types l hl a t
+
+theorem child_votes (types : List Nat) (t : Nat) : ∀ rows : List (Nat × Rat),
+    (∀ r ∈ rows, r.1 < types.length) →
+    ((colsOf types t).map (countLeaf rows)).sum =
+      (rows.filter (fun r => types.getD r.1 0 == t)).length
+  | [], _ => by
+    apply List.sum_eq_zero
+    intro x hx
+    obtain ⟨i, _, rfl⟩ := List.mem_map.1 hx
+    rfl
+  | r :: rows, h => by
+    have ih := child_votes types t rows (fun q hq => h q (by simp [hq]))
+    have hr : r.1 < types.length := h r (by simp)
+    have : (colsOf types t).map (countLeaf (r :: rows)) =
+        (colsOf types t).map (fun i => (if r.1 = i then 1 else 0) + countLeaf rows i) := by
+      apply List.map_congr_left; intro i _; exact countLeaf_cons r rows i
+    rw [this, List.sum_map_add, ih, sum_ite_colsOf types r.1 hr 1 t, List.filter_cons]
+    by_cases ht : types.getD r.1 0 = t
+    · have hb : (types.getD r.1 0 == t) = true := by rw [ht]; exact beq_self_eq_true _
+      rw [if_pos ht, if_pos hb, List.length_cons]; omega
+    · have hb : ¬ (types.getD r.1 0 == t) = true := by
+        intro e; exact ht (eq_of_beq e)
+      rw [if_neg ht, if_neg hb]; omega
+
+theorem child_corr (types : List Nat) (t : Nat) : ∀ rows : List (Nat × Rat),
+    (∀ r ∈ rows, r.1 < types.length) →
+    ((colsOf types t).map (corrOfLeaf rows)).sum =
+      ((rows.filter (fun r => types.getD r.1 0 == t)).map (·.2)).sum
+  | [], _ => by
+    apply List.sum_eq_zero
+    intro x hx
+    obtain ⟨i, _, rfl⟩ := List.mem_map.1 hx
+    simp [corrOfLeaf]
+  | r :: rows, h => by
+    have ih := child_corr types t rows (fun q hq => h q (by simp [hq]))
+    have hr : r.1 < types.length := h r (by simp)
+    have : (colsOf types t).map (corrOfLeaf (r :: rows)) =
+        (colsOf types t).map (fun i => (if r.1 = i then r.2 else 0) + corrOfLeaf rows i) := by
+      apply List.map_congr_left; intro i _; exact corrOfLeaf_cons r rows i
+    rw [this, List.sum_map_add, ih, sum_ite_colsOf types r.1 hr r.2 t, List.filter_cons]
+    by_cases ht : types.getD r.1 0 = t
+    · have hb : (types.getD r.1 0 == t) = true := by rw [ht]; exact beq_self_eq_true _
+      rw [if_pos ht, if_pos hb, List.map_cons, List.sum_cons]
+    · have hb : ¬ (types.getD r.1 0 == t) = true := by
+        intro e; exact ht (eq_of_beq e)
+      rw [if_neg ht, if_neg hb, zero_add]
+
+/-- tally followed by aggregation: the aggregated vote of a child is the number
+    of iterations whose nearest leaf belongs to it, its correlation sum the sum
+    of exactly those iterations' correlations -/
+theorem aggregate_tally (types : List Nat) (rows : List (Nat × Rat))
+    (h : ∀ r ∈ rows, r.1 < types.length) :
+    (aggregateVotes types (tallyCell types.length rows).1 (tallyCell types.length rows).2).1 =
+      (uniqSorted types).map
+        (fun t => (rows.filter (fun r => types.getD r.1 0 == t)).length) ∧
+    (aggregateVotes types (tallyCell types.length rows).1 (tallyCell types.length rows).2).2.1 =
+      (uniqSorted types).map
+        (fun t => ((rows.filter (fun r => types.getD r.1 0 == t)).map (·.2)).sum) := by
+  rw [tallyCell_votes, tallyCell_corr]
+  unfold aggregateVotes
+  simp only
+  constructor
+  · apply List.map_congr_left
+    intro t _
+    rw [← child_votes types t rows h]
+    congr 1
+    apply List.map_congr_left
+    intro i hi
+    have hi' := ((mem_colsOf types t i).1 hi).1
+    rw [List.getD_eq_getElem?_getD, List.getElem?_map, List.getElem?_range hi']
+    rfl
+  · apply List.map_congr_left
+    intro t _
+    rw [← child_corr types t rows h]
+    congr 1
+    apply List.map_congr_left
+    intro i hi
+    have hi' := ((mem_colsOf types t i).1 hi).1
+    rw [List.getD_eq_getElem?_getD, List.getElem?_map, List.getElem?_range hi']
+    rfl
+
+end CTM.Election
+
+namespace CTM.Election
+open CTM.Numeric
+
+/-- tally followed by `columns` (aggregation iff a type repeats): every column
+    holds the number of iterations whose nearest leaf belongs to the column's
+    child -/
+theorem columns_tally (types : List Nat) (rows : List (Nat × Rat))
+    (h : ∀ r ∈ rows, r.1 < types.length) (k : Nat)
+    (hk : k < (columns types (tallyCell types.length rows).1
+      (tallyCell types.length rows).2).1.length) :
+    (columns types (tallyCell types.length rows).1 (tallyCell types.length rows).2).1.getD k 0 =
+      (rows.filter (fun r => types.getD r.1 0 ==
+        (columns types (tallyCell types.length rows).1
+          (tallyCell types.length rows).2).2.2.getD k 0)).length := by
+  unfold columns at hk ⊢
+  split
+  · next hd =>
+    rw [if_pos hd] at hk
+    rw [(aggregate_tally types rows h).1] at hk ⊢
+    simp only [List.length_map] at hk
+    simp only [aggregateVotes]
+    rw [List.getD_eq_getElem?_getD, List.getElem?_map, List.getElem?_eq_getElem hk,
+      Option.map_some, Option.getD_some,
+      List.getD_eq_getElem?_getD (l := uniqSorted types), List.getElem?_eq_getElem hk,
+      Option.getD_some]
+  · next hd =>
+    rw [if_neg hd] at hk
+    have hnd : types.Nodup := nodup_of_length_uniqSorted types (by simpa [hasDupTypes] using hd)
+    simp only
+    rw [tallyCell_votes] at hk ⊢
+    have hk' : k < types.length := by simpa using hk
+    rw [List.getD_eq_getElem?_getD, List.getElem?_map, List.getElem?_range hk',
+      Option.map_some, Option.getD_some]
+    unfold countLeaf
+    congr 1
+    apply List.filter_congr
+    intro r hr
+    have hr' := h r hr
+    rw [List.getD_eq_getElem?_getD, List.getD_eq_getElem?_getD, List.getElem?_eq_getElem hr',
+      List.getElem?_eq_getElem hk', Option.getD_some, Option.getD_some]
+    by_cases e : r.1 = k
+    · subst e; simp
+    · have : ¬ types[r.1] = types[k] := fun e' => e ((hnd.getElem_inj_iff).1 e')
+      simp [e, this]
+
+end CTM.Election
